@@ -140,6 +140,32 @@ void historyOn(NifFile& nif, const std::string& SN, const JV& h, size_t k, const
 			given = cidList(d, ids);
 			nif.SetUvsForShape(shape, d);
 		}
+		else if ((op == "normals" || op == "tangents" || op == "bitangents") && v == 2 && step % 2 == 1) {
+			// values that the packed formats (one byte per component) cannot hold exactly: what comes back is within half a
+			// storage step (1/255) of what was given; versions that keep floats give back the floats
+			std::vector<Vector3> d;
+			size_t salt = op == "normals" ? 1 : (op == "tangents" ? 3 : 5);
+			for (size_t i = 0; i < nv; i++)
+				d.emplace_back(float(int((i * 37 + 11 * salt) % 199) - 99) / 100.0f, float(int((i * 53 + 7 * salt) % 197) - 98) / 100.0f,
+							   float(int((i * 29 + 3 * salt) % 193) - 96) / 100.0f);
+			if (op == "normals") nif.SetNormalsForShape(shape, d);
+			else if (op == "tangents") nif.SetTangentsForShape(shape, d);
+			else nif.SetBitangentsForShape(shape, d);
+			written.erase(op);
+			const std::vector<Vector3>* got = op == "normals" ? nif.GetNormalsForShape(shape) : (op == "tangents" ? nif.GetTangentsForShape(shape) : nif.GetBitangentsForShape(shape));
+			double dev = 0;
+			bool count = got && got->size() == d.size();
+			if (count)
+				for (size_t i = 0; i < d.size(); i++) {
+					dev = std::max(dev, (double) std::fabs((*got)[i].x - d[i].x));
+					dev = std::max(dev, (double) std::fabs((*got)[i].y - d[i].y));
+					dev = std::max(dev, (double) std::fabs((*got)[i].z - d[i].z));
+				}
+			JObj ev;
+			ev.add("e", "approx").raw("case", cj.done()).add("attr", attr).add("count", count).add("dev1000", (long long) llround(std::min(dev, 100.0) * 255.0 * 1000.0));
+			out += ev.done() + "\n";
+			continue;
+		}
 		else if (op == "normals" || op == "tangents" || op == "bitangents") {
 			std::vector<Vector3> d;
 			size_t salt = op == "normals" ? 1 : (op == "tangents" ? 3 : 5);
@@ -166,7 +192,7 @@ void historyOn(NifFile& nif, const std::string& SN, const JV& h, size_t k, const
 			if (nv >= 4) {
 				if (v == 0) d = {Triangle(0, 1, 2), Triangle(0, 2, 3)};
 				else if (v == 1) d = {Triangle(1, 2, 3), Triangle(0, 1, 3)};
-				else d = {Triangle(0, 1, 2)};
+				else d = {Triangle(0, 1, 2), Triangle(1, 1, 2)}; // (with a degenerate triangle: a triangle like any other)
 			}
 			else if (nv == 3) d = {Triangle(0, 1, 2)};
 			JArr a;
